@@ -11,6 +11,7 @@ import (
 
 // Frame is one (possibly inlined) function activation.
 type Frame struct {
+	pureRes         []*Term // results to use for the next contractCall (a function declared pure): no effects, ensures assumed of these terms
 	c               *Ctx
 	eng             *Engine
 	info            *types.Info
